@@ -55,11 +55,14 @@ def _frame(framing, count, req, fill=0, at=None):
     return wire.aa55_resp('0186', pl)
 
 
+HOST_AS = [None]        # (set by job(): the inverter's host as the application configured it - a name, a short spelling)
+
+
 def execute(framing, count, plan, ka, R=1, T=1.0):
     world.reset()
     peer = PlanPeer(plan)
     loop = KLoop(peer)
-    p = make_protocol('tcp' if framing == 'tcp' else 'udp', T, R, ka)
+    p = make_protocol('tcp' if framing == 'tcp' else 'udp', T, R, ka, host=HOST_AS[0])
     cmd = p.read_command(100, count) if framing != 'aa55' else gp.Aa55ProtocolCommand("010600", "0186")
     st, res = loop.run(_exec(cmd, p))
     if st == 'hang':
@@ -372,6 +375,18 @@ def job(j):
                 for clause, cause in v2:
                     key = f'{clause}/{framing}/ka={int(ka)}/pos:{case[4]}/timeout={T_}'
                     vio.setdefault(key, []).append((clause, case + (('T', T_),), cause))
+            # the inverter's host configured as a name / a short spelling (the kernel model resolves it; datagrams come from
+            # the resolved address)
+            for host in ('inverter.local', '10.0.2'):
+                HOST_AS[0] = host
+                try:
+                    v2, o2 = run_case(case, ka)
+                finally:
+                    HOST_AS[0] = None
+                n += 1
+                for clause, cause in v2:
+                    key = f'{clause}/{framing}/ka={int(ka)}/pos:{case[4]}/host-given-as-a-name'
+                    vio.setdefault(key, []).append((clause, case + (('host', host),), cause))
         n += 1
         oc[(case[0],) + o] = oc.get((case[0],) + o, 0) + 1
         states.add(h((framing, ka, case[0], case[2], case[3], o)))
@@ -390,11 +405,18 @@ def job(j):
         if case and isinstance(case[-1], tuple) and case[-1][0] == 'T':
             Tq = case[-1][1]
             case = case[:-1]
-        v2, _ = run_case(case, ka, T=Tq)
+        hostq = None
+        if case and isinstance(case[-1], tuple) and case[-1][0] == 'host':
+            hostq = HOST_AS[0] = case[-1][1]
+            case = case[:-1]
+        try:
+            v2, _ = run_case(case, ka, T=Tq)
+        finally:
+            HOST_AS[0] = None
         if not any(c == clause for c, _ in v2):
             key = key + '/order-dependent'
             cause = f'{cause}; ' + 'failed during exploration but not on a fresh replay: the outcome depends on earlier executions in the same process (state outside the objects under test leaks between executions)'
-        out.append(dict(key=key, clause=clause, n=len(lst), replay=dict(case=list(case), ka=ka, T=Tq),
+        out.append(dict(key=key, clause=clause, n=len(lst), replay=dict(case=list(case), ka=ka, T=Tq, host=hostq),
                         detail=dict(cause=cause, count=case[2], split=case[3])))
     return n, oc, out, states, sample
 
@@ -460,5 +482,9 @@ def replay(r):
             return tuple(bytes.fromhex(x['hex']) for x in c)      # (a remainder delivered in several datagrams)
         return c
     case = [unhex(c) for c in r['case']]
-    v, o = run_case(tuple(case), r['ka'], T=r.get('T', 1.0))
+    HOST_AS[0] = r.get('host')
+    try:
+        v, o = run_case(tuple(case), r['ka'], T=r.get('T', 1.0))
+    finally:
+        HOST_AS[0] = None
     return dict(case=[c.hex() if isinstance(c, bytes) else c for c in case], outcome=o, violations=v)
